@@ -70,18 +70,18 @@ fn main() {
     }
     ctx.extra.insert("regression_replays".into(), serde_json::json!(regress.0));
     match id {
-        "C01" => { vh::router::props::c01(&mut ctx); if !ctx.failed() { vh::net::c07s::run(&mut ctx, false, true); } if !ctx.failed() { vh::net::c01n::run(&mut ctx); } }
+        "C01" => { vh::router::props::c01(&mut ctx); if !ctx.failed() { vh::net::c07s::run(&mut ctx, false, true); } if !ctx.failed() { vh::net::c01n::run(&mut ctx); } if !ctx.failed() { vh::net::c01f::run(&mut ctx); } ctx.rule.push_str("; leg first-registrations-loopback: 1-16 brand-new topics, each registered at the same instant by 2-3 peers on different connections (pub+sub, sub+sub+pub, pub+pub+sub, requestor+replier) against the real server on a multi-thread runtime: all are answered Ok, so each subscriber must receive what each publisher sends and the requestor must be answered"); }
         "C02" => { vh::router::props::c02(&mut ctx); if !ctx.failed() { vh::net::c02n::run(&mut ctx); } }
         "C08" => vh::router::props::c08(&mut ctx),
         "C09" => { vh::router::props::c09(&mut ctx); if !ctx.failed() { vh::net::c09n::run(&mut ctx); } }
         "C10" => { vh::router::props::c10(&mut ctx); if !ctx.failed() { vh::net::c10c::run(&mut ctx); } }
         "C03" => vh::net::c03::run(&mut ctx),
-        "C04" => vh::net::c04::run(&mut ctx),
+        "C04" => { vh::net::c04::run(&mut ctx); if !ctx.failed() { vh::net::c12r::run(&mut ctx, "calls-after-real-outage", true); } ctx.rule.push_str("; leg calls-after-real-outage: the requestor reaches the real server through a UDP relay that is black-holed for 16-19 s (both ends give the connection up), then 1-2 clones and the original issue concurrent calls against a wire-level replier that answers in reverse order: every call must return its own reply"); }
         "C05" => vh::pure::c05::run(&mut ctx),
         "C06" => { vh::pure::c06::run(&mut ctx); if !ctx.failed() { vh::net::c06n::run_in_child(&mut ctx); } }
         "C07" => { vh::pure::c07::run_grammar(&mut ctx); if !ctx.failed() { vh::net::c07s::run(&mut ctx, true, true); } c07_meta(&mut ctx) }
-        "C11" => { vh::router::props::c11_router(&mut ctx); if !ctx.failed() { vh::net::c11::run_net(&mut ctx); } c11_meta(&mut ctx) }
-        "C12" => vh::net::c12::run(&mut ctx),
+        "C11" => { vh::router::props::c11_router(&mut ctx); if !ctx.failed() { vh::net::c11::run_net(&mut ctx); } if !ctx.failed() { vh::net::c01f::run(&mut ctx); } c11_meta(&mut ctx) }
+        "C12" => { vh::net::c12::run(&mut ctx); if !ctx.failed() { vh::net::c12r::run(&mut ctx, "real-server-outages", false); } ctx.rule.push_str("; leg real-server-outages: the real server, the client under test behind a UDP relay owned by the harness, the counterpart connected directly; an outage black-holes the relay in both directions for 16-19 s (longer than the 10 s QUIC idle timeout, so client and server both drop the connection) while the stream is idle or in use; after the path works again each of the four stream kinds must work again within 45 s (publisher: accepted items arrive, in order; subscriber: a publisher that keeps publishing is heard; requestor and its clones: own replies, also concurrently against a replier answering in reverse order; replier: a requestor connected throughout is answered), 1-2 outages per case"); }
         "C13" => vh::pure::c13::run(&mut ctx),
         "C14" => vh::pure::c14::run(&mut ctx),
         "C15" => vh::net::c15::run(&mut ctx),
@@ -96,6 +96,7 @@ fn replay(id: &'static str, leg: &str, case: &serde_json::Value) -> i32 {
     if leg.starts_with("ps-") { return vh::router::props::replay_ps(id, case); }
     if leg.ends_with("-direct") { return vh::router::props::replay_d(id, case); }
     if id == "C03" { return vh::net::c03::replay(id, case); }
+    if leg == "calls-after-real-outage" || leg == "real-server-outages" { return vh::net::c12r::replay(id, case); }
     if id == "C04" { return vh::net::c04::replay(id, case); }
     if id == "C05" { return vh::pure::c05::replay(id, leg, case); }
     if (id == "C07" || id == "C01") && (leg == "server-names" || leg == "isolation") { return vh::net::c07s::replay(id, leg, case); }
@@ -108,6 +109,7 @@ fn replay(id: &'static str, leg: &str, case: &serde_json::Value) -> i32 {
     if id == "C15" { return vh::net::c15::replay(id, case); }
     if id == "C10" && leg == "client-repliers" { return vh::net::c10c::replay(id, case); }
     if id == "C01" && leg == "backpressure-loopback" { return vh::net::c01n::replay(id, case); }
+    if leg == "first-registrations-loopback" { return vh::net::c01f::replay(id, case); }
     if id == "C09" && leg == "idle-cpu-loopback" { return vh::net::c09n::replay(id, case); }
     if id == "C16" && leg == "sigint-loopback" { return vh::net::c16n::replay(id, case); }
     if id == "C16" && leg == "ps-close-during-poll" { return vh::core::replay_case::<vh::router::closepoll::Case>(id, case, 4, vh::router::closepoll::run_case); }
